@@ -32,7 +32,9 @@ RULE = ("one case = one outer optimizer step on a real Plan (plus all inner opti
         "mask with at least one free variable for V <= 4 in rotation (incl. no mask, all-free, single-free), sampled masks for "
         "V in 5..8; the mask is written as booleans, as 0/1 integers or as an integer / boolean ndarray. The step starts from the configured initial values or (40% of the runs without a scaler) from an explicit "
         "variables= vector inside the bounds that differs from them also on the fixed positions; in 15% the same step object "
-        "has already run once on the same plan. Optimizer: scripted plug-in (1-6 requests: function, gradient, both, batches of "
+        "has already run once on the same plan; in 60% of the scripted, non-nested explicit-start runs with a differing fixed "
+        "entry ONE EnsembleOptimizer object is driven directly through two start() calls (configured initial values, then "
+        "the explicit vector; the second run is the observation). Optimizer: scripted plug-in (1-6 requests: function, gradient, both, batches of "
         "1-3 rows, gradient-only requests at the point of an earlier function request or of the first/last row of an earlier "
         "batch, repeated; free values inside the bounds, without nesting also outside; in 40% it overwrites in place every array "
         "it was handed or passed) or the real SciPy plug-in (slsqp, nelder-mead, differential_evolution serial and vectorised, "
@@ -213,7 +215,16 @@ def gen_one(rng, mask_hint=-1, force=None):
             "scribble": rng.random() < 0.4,
             # how the mask is written in the configuration: booleans, 0/1 integers (as read from JSON/YAML), or an ndarray of
             # either kind -- all of them denote the same mask
-            "mask_repr": rng.choice(["bool", "bool", "int", "int", "ndarray_int", "ndarray_bool"])}
+            "mask_repr": rng.choice(["bool", "bool", "int", "int", "ndarray_int", "ndarray_bool"]),
+            "direct": False}
+    # "direct": ONE EnsembleOptimizer object (public class of ropt.optimization) is started twice: first from the
+    # configured initial values (unrecorded), then from the explicit start vector, whose fixed entries differ -- every
+    # vector and result of the second run must carry the second start vector's fixed entries
+    if (opt_kind == "scripted" and not nested and scaler is None and start is not None and rel_fixed is None
+            and mask is not None and any((not m) and a != b for m, a, b in zip(mask, start, x0))):
+        case["direct"] = force.get("direct", rng.random() < 0.6)
+        if case["direct"]:
+            case["warmup"] = False
     if opt_kind == "scripted":
         case["opt"] = {"kind": "scripted",
                        "script": _script(rng, bounds, eff_mask, outside_ok=not nested, allow_batch=True,
@@ -365,6 +376,8 @@ def run_impl(case):  # noqa: C901, PLR0915
             self._cb = wrap_callback(self._rid, cb)
 
         def start(self, initial_values):
+            # a second start() of the same optimizer object: only the latest run is the observation
+            runs[self._rid]["cbs"] = []
             runs[self._rid]["seen_start"] = fl(initial_values)
             scribble = self._scribble
             if scribble:
@@ -525,6 +538,27 @@ def run_impl(case):  # noqa: C901, PLR0915
     step = outer.add_step("optimizer")
     exc = None
     exit_code = None
+    if case.get("direct"):
+        import types
+
+        from ropt.config.enopt import EnOptConfig
+        from ropt.ensemble_evaluator import EnsembleEvaluator
+        from ropt.optimization import EnsembleOptimizer
+
+        def signal(results=None):
+            if results is not None:
+                observer(types.SimpleNamespace(data={"results": results}))
+
+        with warnings.catch_warnings():
+            warnings.simplefilter("ignore")
+            try:
+                cfg = EnOptConfig.model_validate(outer_cfg)
+                eo = EnsembleOptimizer(cfg, EnsembleEvaluator(cfg, None, evaluator, pm), pm, signal_evaluation=signal)
+                eo.start(np.array(cfg.variables.initial_values, dtype=np.float64))
+                exit_code = eo.start(np.array(case["start"], dtype=np.float64))
+            except Exception as e:  # noqa: BLE001 - the exception class is the observation
+                exc = type(e).__name__
+        return {"runs": runs, "exit": None if exit_code is None else int(exit_code), "exc": exc}
     with warnings.catch_warnings():
         warnings.simplefilter("ignore")
         try:
@@ -748,6 +782,7 @@ def features(case, obs):
             "nested": case["nested"] is not None, "scaler": case["scaler"] is not None,
             "start": "explicit" if case.get("start") is not None else "configured", "warmup": bool(case.get("warmup")),
             "mask_written_as": case.get("mask_repr", "bool") if mask is not None else "-",
+            "one_optimizer_object_started_twice": bool(case.get("direct")),
             "relative": RELATIVE in case.get("pts", []), "relative_on_fixed_infinite": case.get("rel_fixed") is not None,
             "rejected": _rejected(obs),
             "scribble": bool(case.get("scribble")) and o["kind"] == "scripted",
